@@ -197,8 +197,16 @@ class ExprBuilder:
             v = self.lit(e)
             return pdt.lit(v) if (wrap or e.get("wrap")) else v
         if k == "col":
-            return self.env[e["t"]][e["n"]]
+            # both documented spellings: t.x and t["x"] (attribute access only where the name cannot shadow an attribute)
+            self.nref = getattr(self, "nref", 0) + 1
+            t = self.env[e["t"]]
+            if self.nref % 2 and e["n"].isidentifier() and not e["n"].startswith("_") and not hasattr(type(t), e["n"]):
+                return getattr(t, e["n"])
+            return t[e["n"]]
         if k == "c":
+            self.nref = getattr(self, "nref", 0) + 1
+            if self.nref % 2 and e["n"].isidentifier() and not e["n"].startswith("_"):
+                return getattr(pdt.C, e["n"])
             return pdt.C[e["n"]]
         if k == "cast":
             return self.b(e["e"], wrap=True).cast(getattr(pdt, e["to"])())
@@ -338,6 +346,8 @@ class RealRun:
                 on = [b.b(e, wrap=True) for e in st["on"]]
             if st.get("cross"):
                 return t >> pdt.cross_join(r, suffix=st.get("suffix"))
+            if len(st["out"]) % 2:  # the convenience verbs are documented as equivalent spellings
+                return t >> {"inner": pdt.inner_join, "left": pdt.left_join, "full": pdt.full_join}[st["how"]](r, on, suffix=st.get("suffix"))
             return t >> pdt.join(r, on, st["how"], suffix=st.get("suffix"))
         if v == "union":
             r = self.env[st["right"]]
